@@ -129,7 +129,7 @@ def tlc_behaviours(tier, seed):
     num = 400 if tier == "quick" else 6000
     meta = tempfile.mkdtemp(prefix="tlcsim_")
     try:
-        cmd = tlc._java_cmd(("-XX:+UseParallelGC",)) + ["-simulate", f"num={num}", "-depth", "60", "-workers", "1", "-seed", str(seed + 5),
+        cmd = tlc._java_cmd(("-XX:+UseParallelGC",), tmpdir=meta) + ["-simulate", f"num={num}", "-depth", "60", "-workers", "1", "-seed", str(seed + 5),
                                                        "-metadir", meta, "-noGenerateSpecTE", "-config", "MC_CreateSim.cfg", "MC_CreateSim.tla"]
         p = subprocess.run(cmd, cwd=tlc.SPEC_DIR, capture_output=True, text=True, timeout=1800)
     finally:
